@@ -9157,6 +9157,8 @@ class SVG(Group):
                 if "*" in styles:  # Select all.
                     style += styles["*"]
                 if tag in styles:  # selector type
+                    if len(style) != 0:
+                        style += ";"
                     style += styles[tag]
                 if SVG_ATTR_ID in attributes:  # Selector id #id
                     svg_id = attributes[SVG_ATTR_ID]
